@@ -38,14 +38,50 @@ def run(ctx) -> None:
     ctx.analysed(f)
     g = cfg_of(f)
     loops = [n for n in g.nodes if n.kind == "for" and "currently_executing" in norm(n.ast.iter)]
-    same = [l for l in loops if any("c.name == cmd_request.name" in norm(x) or ".name == cmd_request.name" in norm(x)
-                                    for x in walk_no_nested(l.ast) if isinstance(x, ast.If))]
-    overlap = [l for l in loops if "overlapping_command_names_lists" in norm(l.ast)]
-    if not same or not overlap:
-        raise AnchorError("_execute_uod_command: same-name / overlap cancel loops not recognised")
-    for l, what in ((same[0], "same-name"), (overlap[0], "overlap")):
-        if not any(call_attr(c) == "_cancel_command" for c in walk_no_nested(l.ast) if isinstance(c, ast.Call)):
-            ctx.fail("R11a", f, l.ast, f"_execute_uod_command: {what} loop cancels", f"the {what} loop no longer cancels the older command")
+    if not loops:
+        raise AnchorError("_execute_uod_command: no loop over the currently executing requests")
+    # cancel sites inside those loops, classified by the condition under which they cancel
+    from ..util import local_single_defs
+    lsd = local_single_defs(f)
+    same_loops, overlap_loops, relation = [], [], None
+    for l in loops:
+        lv = norm(l.ast.target)
+        inside = {id(x) for x in ast.walk(l.ast)}
+        for n in g.nodes:
+            if n.ast is None or id(n.ast) not in inside or not any(call_attr(c) == "_cancel_command" and c.args and norm(c.args[0]) == lv
+                                                                    for c in n.calls()):
+                continue
+            facts = facts_at(g, n, lsd)
+            pos = {a for a, pol in facts if pol}
+            if f"{lv}.name == cmd_request.name" in pos or f"cmd_request.name == {lv}.name" in pos:
+                same_loops.append(l)
+                continue
+            # direct form: both names in the same declared overlap list
+            ins = [a for a in pos if a.startswith(f"{lv}.name in ")]
+            for a in ins:
+                coll = a[len(f"{lv}.name in "):]
+                if f"cmd_request.name in {coll}" in pos:
+                    # coll must be the loop variable of a loop over the declared lists
+                    outer = [x for x in ast.walk(l.ast) if isinstance(x, ast.For) and norm(x.target) == coll
+                             and "overlapping_command_names_lists" in norm(x.iter)]
+                    if outer:
+                        overlap_loops.append(l)
+                elif coll in lsd or True:
+                    # relation form: <coll> = self.uod.<lookup>(cmd_request.name)  /  self.uod.<attr>[cmd_request.name] / .get(...)
+                    d = lsd.get(coll)
+                    if d is not None and "cmd_request.name" in norm(d) and norm(d).startswith("self.uod."):
+                        overlap_loops.append(l)
+                        relation = d
+    if not same_loops:
+        ctx.fail("R11a", f, loops[0].ast, "_execute_uod_command: an executing request of the same name is cancelled",
+                 "no `_cancel_command(c)` under `c.name == cmd_request.name` in a loop over the executing requests: two instances of "
+                 "one command would execute")
+    if not overlap_loops:
+        ctx.fail("R11a", f, loops[0].ast, "_execute_uod_command: an executing request of an overlapping command is cancelled",
+                 "no `_cancel_command(c)` under 'c.name and cmd_request.name are in one declared overlap list' (directly or through "
+                 "a relation looked up on the uod) in a loop over the executing requests")
+    if relation is not None:
+        _check_overlap_relation(ctx, prog, f, relation)
     creates = [n for n in g.nodes if node_calls(n, "create_command")]
     gets = [n for n in g.nodes if any(call_attr(c) == "get_command" for c in n.calls())]
     execs = [n for n in g.nodes if any(call_attr(c) == "execute" for c in n.calls())]
@@ -53,9 +89,11 @@ def run(ctx) -> None:
     if not creates or not execs or not inits:
         raise AnchorError("_execute_uod_command: create_command / execute / initialize not found")
     for n in creates + gets + execs:
-        for l, what in ((same[0], "same-name"), (overlap[0], "overlap")):
+        for ls, what in ((same_loops, "same-name"), (overlap_loops, "overlap")):
+            if not ls:
+                continue
             inst = f"_execute_uod_command: {what} cancel loop dominates `{n.text()[:50]}`"
-            if g.dominates(l, n):
+            if any(g.dominates(l, n) for l in ls):
                 ctx.ok("R11a", inst)
             else:
                 ctx.fail("R11a", f, n.ast, inst, f"a command can be created/executed without first cancelling an older {what} command: "
@@ -144,3 +182,64 @@ def run(ctx) -> None:
             ctx.ok("R11d", inst)
         else:
             ctx.fail("R11d", fn, fn.node, inst, "a finalized command stays registered as a live instance", p)
+
+
+def _check_overlap_relation(ctx, prog, f, lookup: ast.AST) -> None:
+    """The overlap test goes through a relation kept on the uod (`self.uod.<method>(name)` / `self.uod.<attr>[name]`).
+    The relation must be *the declared one*: built from overlapping_command_names_lists by accumulation, so that a command
+    declared in several overlap groups overlaps with the members of all of them."""
+    uod = prog.cls("openpectus.lang.exec.uod:UnitOperationDefinitionBase")
+    attr = None
+    if isinstance(lookup, ast.Call) and isinstance(lookup.func, ast.Attribute):
+        m = uod.find_method(lookup.func.attr)
+        if m is None:
+            # self.uod.<attr>.get(name, ...)
+            if isinstance(lookup.func.value, ast.Attribute) and lookup.func.attr == "get":
+                attr = lookup.func.value.attr
+            else:
+                raise AnchorError(f"overlap relation lookup `{norm(lookup)}` not understood")
+        else:
+            ctx.analysed(m)
+            for r in walk_no_nested(m.node):
+                if isinstance(r, ast.Return) and r.value is not None:
+                    for x in ast.walk(r.value):
+                        if isinstance(x, ast.Attribute) and isinstance(x.value, ast.Name) and x.value.id == "self":
+                            attr = x.attr
+            if attr is None:
+                raise AnchorError(f"{m.short}: returned relation attribute not found")
+    elif isinstance(lookup, ast.Subscript) and isinstance(lookup.value, ast.Attribute):
+        attr = lookup.value.attr
+    else:
+        raise AnchorError(f"overlap relation lookup `{norm(lookup)}` not understood")
+    writers = 0
+    for fn in uod.methods.values():
+        for n in ast.walk(fn.node):
+            tgt = None
+            if isinstance(n, ast.Assign) and len(n.targets) == 1:
+                tgt = n.targets[0]
+            elif isinstance(n, ast.AugAssign):
+                tgt = n.target
+            if not (isinstance(tgt, ast.Subscript) and isinstance(tgt.value, ast.Attribute) and tgt.value.attr == attr):
+                continue
+            writers += 1
+            inst = f"{fn.short}: {norm(n)[:90]}"
+            in_lists_loop = any(isinstance(lp, ast.For) and "overlapping_command_names_lists" in norm(lp.iter) and any(x is n for x in ast.walk(lp))
+                                for lp in ast.walk(fn.node))
+            accumulating = isinstance(n, ast.AugAssign) and isinstance(n.op, ast.BitOr) or (
+                isinstance(n, ast.Assign) and f"self.{attr}" in norm(n.value))
+            if not in_lists_loop:
+                ctx.fail("R11a", fn, n, inst, "the overlap relation is written outside a loop over the declared overlap lists")
+            elif not accumulating:
+                ctx.fail("R11a", fn, n, inst, "the overlap relation is built by plain assignment inside the loop over the declared overlap "
+                         "lists: a command declared in several overlap groups keeps only the last group, so an executing command of "
+                         "an earlier group is not cancelled and both execute in the same tick")
+            else:
+                ctx.ok("R11a", inst)
+        for n in ast.walk(fn.node):
+            if isinstance(n, ast.Call) and isinstance(n.func, ast.Attribute) and n.func.attr in ("update", "add") \
+                    and f"self.{attr}" in norm(n.func.value):
+                writers += 1
+                ctx.ok("R11a", f"{fn.short}: {norm(n)[:90]}")
+    if writers == 0:
+        ctx.fail("R11a", f, lookup, f"overlap relation self.uod.{attr}", "the relation consulted for overlaps is never filled from the "
+                 "declared overlap lists")
